@@ -18,8 +18,9 @@ package ha
 //   pS  handlePeerLost parked between sm.PeerLost (transition published) and the ifDownCount read
 //   pL  handlePeerLost parked between its m.mu section (peerNodeID = "") and sm.PeerLost of "srg1": the manager
 //       gets a second group "srg0" (forced ACTIVE) whose PeerLost transition is the parking place; when the map
-//       iteration visits srg1 first (detected by holding srg1's lock while the call starts) the attempt is
-//       discarded and the whole case is run again
+//       iteration visits srg1 first (detected without timers: srg1's lock is read-held, a pending writer makes
+//       TryRLock fail) the attempt is discarded and the whole case is run again
+//   xa/xu  interface down/up with a lock probe: is m.mu still held when sm.AdjustPriority is entered?
 //   rl  release the parked call and wait for it
 
 import (
@@ -29,6 +30,7 @@ import (
 	"fmt"
 	"io"
 	"os"
+	"runtime"
 	"strconv"
 	"strings"
 	"testing"
@@ -283,6 +285,8 @@ func c10NewNode2(who string, wi int, id string, prio int, preempt bool, dec, nif
 }
 
 func (n *c10Node) show() string { return n.showSRG(c10SRG) }
+
+func (n *c10Node) who() string { return n.m.eventBus.(*c10Bus).who }
 
 func (n *c10Node) showSRG(name string) string {
 	sm := n.m.srgs[name]
@@ -616,27 +620,65 @@ func c10RunCaseOnce(f []string) (res string) {
 			g.mu.Lock()
 			g.state = SRGStateActive
 			g.mu.Unlock()
-			// srg1's lock is held while the call starts: a parking signal that arrives while it is still held
-			// proves that the map iteration visited the parking group first and srg1.PeerLost has not run
+			// Which group does the map iteration of handlePeerLost visit first?  srg1's lock is read-held while the
+			// call starts.  Either the call parks in the publication of srg0's transition (srg1 not touched yet), or
+			// it blocks in srg1.PeerLost: a pending writer makes TryRLock fail, a definite signal (no timer).
 			s1 := n.m.srgs[c10SRG]
-			s1.mu.Lock()
+			s1.mu.RLock()
 			n.gate.kind = "L"
 			done := make(chan []c10Msg, 1)
 			go func() { n.m.handlePeerLost(); done <- nil }()
-			select {
-			case <-n.gate.parked:
-				s1.mu.Unlock()
-				n.done = done
-			case <-time.After(15 * time.Millisecond):
-				s1.mu.Unlock()
+			for parked := false; !parked; {
 				select {
 				case <-n.gate.parked:
+					s1.mu.RUnlock()
 					n.done = done
-				case <-done:
-					n.gate.kind = ""
+					parked = true
+				default:
+					if !s1.mu.TryRLock() {
+						s1.mu.RUnlock() // srg1 was visited first: let the call go on and run the case again
+						select {
+						case <-n.gate.parked:
+							n.done = done
+						case <-done:
+							n.gate.kind = ""
+						}
+						return c10Retry
+					}
+					s1.mu.RUnlock()
+					runtime.Gosched()
 				}
-				return c10Retry // srg1 was visited first (or the goroutine was slow): run the case again
 			}
+		case "xa", "xu":
+			// interface notification with a lock probe: the group's lock is read-held, so the call blocks when it
+			// enters sm.AdjustPriority (pending writer => TryRLock fails: definite handshake); at that moment m.mu
+			// must still be held by the call (AdjustPriority inside the ifDownCount critical section)
+			k := c10Arg(tok)
+			ev := events.InterfaceStateEvent{SwIfIndex: uint32(k), Name: fmt.Sprintf("if%d", k), AdminUp: true, LinkUp: op == "xu"}
+			name, tracked := n.m.ifToSRG[uint32(k)]
+			if !tracked {
+				n.m.handleInterfaceEvent(events.Event{Data: ev})
+				break
+			}
+			sm := n.m.srgs[name]
+			sm.mu.RLock()
+			fin := make(chan struct{})
+			go func() { n.m.handleInterfaceEvent(events.Event{Data: ev}); close(fin) }()
+			for {
+				if !sm.mu.TryRLock() {
+					break
+				}
+				sm.mu.RUnlock()
+				runtime.Gosched()
+			}
+			if n.m.mu.TryLock() {
+				n.m.mu.Unlock()
+				sink = append(sink, n.who()+":mu=free")
+			} else {
+				sink = append(sink, n.who()+":mu=held")
+			}
+			sm.mu.RUnlock()
+			<-fin
 		case "rl":
 			n.releaseParked(o)
 		default:
